@@ -455,6 +455,7 @@ package cmd
 //@   recv treechan [message_is_a_tree_or_an_error] msg.Err == nil ==> msg.Tree != nil
 //@   call cmd.parseTipStates [the_tip_states_come_from_the_states_option] a0 == acrstates
 //@   call acr.ParsimonyAcr [the_named_algorithm_on_the_tree_just_read_with_the_tip_states_and_the_switch_as_given] a0 == t.Tree && a1 == tipstates && a2 == algocode(parsimonyAlgo) && a3 == acrrandomresolve && (strlower(parsimonyAlgo) == "acctran" || strlower(parsimonyAlgo) == "deltran" || strlower(parsimonyAlgo) == "downpass" || strlower(parsimonyAlgo) == "none")
+//@   call acr.ParsimonyAcr [only_a_tree_that_was_read_without_error_a_reading_error_is_reported_instead] a0 != nil && t.Err == nil
 //@   call (*tree.Tree).Newick [the_annotated_tree_is_written_only_after_a_successful_reconstruction] a0 == t.Tree && err == nil && ghost(ncalls_ParsimonyAcr) == atHead(ghost(ncalls_ParsimonyAcr)) + 1
 //@   loop 1
 //@     step [every_tree_read_is_reconstructed_once_and_written_once] ghost(ncalls_ParsimonyAcr) == atHead(ghost(ncalls_ParsimonyAcr)) + 1 && ghost(ncalls_Newick) == atHead(ghost(ncalls_Newick)) + 1
@@ -463,14 +464,20 @@ package cmd
 //@   flag countcalls
 //@   recv treechan [message_is_a_tree_or_an_error] msg.Err == nil ==> msg.Tree != nil
 //@   call asr.ParsimonyAsr [the_named_algorithm_on_the_tree_just_read_with_the_alignment_and_the_switch_as_given] a0 == t.Tree && a1 == align && a2 == algocode(parsimonyAlgo) && a3 == asrrandomresolve && (strlower(parsimonyAlgo) == "acctran" || strlower(parsimonyAlgo) == "deltran" || strlower(parsimonyAlgo) == "downpass" || strlower(parsimonyAlgo) == "none")
+//@   call asr.ParsimonyAsr [only_a_tree_that_was_read_without_error_a_reading_error_is_reported_instead] a0 != nil && t.Err == nil
 //@   call (*tree.Tree).Newick [the_annotated_tree_is_written_only_after_a_successful_reconstruction] a0 == t.Tree && err == nil && ghost(ncalls_ParsimonyAsr) == atHead(ghost(ncalls_ParsimonyAsr)) + 1
 //@   loop 1
 //@     step [every_tree_read_is_reconstructed_once_and_written_once] ghost(ncalls_ParsimonyAsr) == atHead(ghost(ncalls_ParsimonyAsr)) + 1 && ghost(ncalls_Newick) == atHead(ghost(ncalls_Newick)) + 1
 // reads one "tip,state" pair per line (thin)
+// parseTipStates (property C12, the table of tip states of `gotree acr`): every line read must have exactly two columns
+// (tab or comma separated), otherwise the whole file is refused; a line of two columns registers its second column as
+// the state of the tip named by its first
 //@ func cmd.parseTipStates
-//@   allocates map[string]string, iface, bufio.Reader
-//@   assigns nothing
+//@   flag noframe
 //@   ensures [a_table_or_an_error] result1 == nil ==> result0 != nil
+//@   return@L1 [a_line_that_has_not_exactly_two_columns_is_refused] (isnil(cols) || len(cols) != 2) && err != nil
+//@   loop 1
+//@     step [a_line_of_two_columns_registers_its_second_column_under_its_first] has(states, cols[0]) && states[cols[0]] == cols[1]
 
 // ---------------------------------------------------------------------------
 // The reformat commands and the shared readers (properties C13, C02): the trees read from the input option are handed to
@@ -523,3 +530,32 @@ package cmd
 //@     step [every_tree_read_is_cut_whatever_the_threshold] ghost(ncalls_CutEdgesMaxLength) == atHead(ghost(ncalls_CutEdgesMaxLength)) + 1
 //@   loop 2
 //@     step [one_line_per_group] ghost(ncalls_Tips) == atHead(ghost(ncalls_Tips)) + 1
+
+// ---------------------------------------------------------------------------
+// nni command (property C17): every tree read is handed to the NNI enumeration once; every proposed move is applied,
+// the neighbour is written between the application and the cancellation, and the move is cancelled before the next
+// one is proposed; an error of either step stops the enumeration and the command
+// ---------------------------------------------------------------------------
+//@ func cmd.nniCmd.RunE$1
+//@   flag noframe
+//@   flag countcalls
+//@   call (*tree.Tree).Newick [the_neighbour_is_written_after_the_move_was_applied_and_before_it_is_cancelled] a0 == t.Tree && ghost(ncalls_Apply) == old(ghost(ncalls_Apply)) + 1 && ghost(ncalls_Undo) == old(ghost(ncalls_Undo))
+//@   return [the_enumeration_goes_on_only_after_the_move_was_applied_written_and_cancelled_once_each_without_error] result ==> err == nil && ghost(ncalls_Apply) == old(ghost(ncalls_Apply)) + 1 && ghost(ncalls_Undo) == old(ghost(ncalls_Undo)) + 1 && ghost(ncalls_WriteString) == old(ghost(ncalls_WriteString)) + 1
+//@   return [an_error_stops_the_enumeration] err != nil ==> !result
+
+//@ func cmd.nniCmd.RunE
+//@   flag noframe
+//@   flag countcalls
+//@   recv treechan [message_is_a_tree_or_an_error] msg.Err == nil ==> msg.Tree != nil
+//@   call (*tree.NNIRearranger).Rearrange [the_tree_just_read_and_only_when_it_was_read_without_error] a1 == t.Tree && t.Err == nil && a1 != nil
+//@   return@L1 [a_failing_move_stops_the_command_with_that_error] result != nil
+//@   loop 1
+//@     step [every_tree_read_is_enumerated_once] ghost(ncalls_Rearrange) == atHead(ghost(ncalls_Rearrange)) + 1
+
+// compute mutations (property C02 at the command level): a tree that could not be read is reported, never handed on
+//@ func cmd.mutationsCmd.RunE
+//@   flag noframe
+//@   flag countcalls
+//@   recv treechan [message_is_a_tree_or_an_error] msg.Err == nil ==> msg.Tree != nil
+//@   call mutations.CountEEMs [only_a_tree_that_was_read_without_error] a0 == t.Tree && t.Err == nil && a0 != nil
+//@   call mutations.CountMutations [only_a_tree_that_was_read_without_error] a0 == t.Tree && t.Err == nil && a0 != nil
